@@ -166,10 +166,19 @@ def build_harness(spec=None):
     os.makedirs(WORK, exist_ok=True)
     shutil.copyfile(os.path.join(REPO, "go.sum"), os.path.join(HARNESS, "go.sum"))
     exe = os.path.join(WORK, "hx")
-    rc, out = sh(["go", "build", "-tags", "verif", "-o", exe, "./cmd/hx"], cwd=HARNESS, env=GOENV, timeout=900)
+    modflag = []
+    if os.path.abspath(REPO) != "/repo":
+        # a tree other than /repo (VERIF_REPO: a scratch worktree carrying a seeded change): same module
+        # file with the replace directive pointing there, passed with -modfile
+        alt = os.path.join(WORK, "go.alt.mod")
+        txt = open(os.path.join(HARNESS, "go.mod")).read().replace("=> /repo", "=> " + os.path.abspath(REPO))
+        open(alt, "w").write(txt)
+        shutil.copyfile(os.path.join(REPO, "go.sum"), os.path.join(WORK, "go.alt.sum"))
+        modflag = ["-modfile=" + alt]
+    rc, out = sh(["go", "build"] + modflag + ["-tags", "verif", "-o", exe, "./cmd/hx"], cwd=HARNESS, env=GOENV, timeout=900)
     if rc == 0 and spec and spec.get("race_binary"):
         # stress half of the harness, instrumented by the Go race detector (C13)
-        rc, out2 = sh(["go", "build", "-race", "-tags", "verif", "-o", os.path.join(WORK, "hxrace"), "./cmd/hxrace"],
+        rc, out2 = sh(["go", "build"] + modflag + ["-race", "-tags", "verif", "-o", os.path.join(WORK, "hxrace"), "./cmd/hxrace"],
                       cwd=HARNESS, env=GOENV, timeout=1800)
         out += out2
     return rc == 0, out, exe
